@@ -364,7 +364,7 @@ int main(int argc, char** argv) {
   // derived from the members of the subset; the largest size draws from the core universe only
   size_t maxFull = (size_t)A.getInt("maxfull", A.thorough() ? 3 : 2);
   size_t maxMember = (size_t)A.getInt("maxmember", A.thorough() ? 4 : 3);
-  bool coreLast = A.getInt("corelast", 0) != 0;   // 1: the largest size draws from the core universe only
+  bool coreLast = A.getInt("corelast", A.thorough() ? 1 : 0) != 0;   // 1: the largest size draws from the core universe only
   size_t maxSize = std::max(maxFull, maxMember);
   vector<int> all, core;
   for (size_t i = 0; i < U.size(); i++) { all.push_back((int)i); if (U[i].core) core.push_back((int)i); }
@@ -380,9 +380,12 @@ int main(int argc, char** argv) {
     if (pass == 1 && !coreLast) break;
     vector<int> order;
     vector<bool> used(U.size(), false);
+    size_t firstK = 0;
     std::function<void()> rec = [&]() {
       if (stop) return;
-      if (order.size() >= lo && order.size() <= hi) {
+      // ownership: empty map -> part 0; one definition -> by its index; two or more -> by the (first, second) pair
+      bool own = order.empty() ? A.part == 0 : order.size() == 1 ? (int)(firstK % A.nparts) == A.part : true;
+      if (own && order.size() >= lo && order.size() <= hi) {
         if (R.expired()) { stop = true; return; }
         runState(U, teles, order, order.size() > maxFull);
       }
@@ -390,16 +393,13 @@ int main(int argc, char** argv) {
       for (size_t k = 0; k < pool.size(); k++) {
         int di = pool[k];
         if (used[di]) continue;
-        if (order.empty() && (int)(k % A.nparts) != A.part) continue;   // partition by first definition
+        if (order.empty()) firstK = k;
+        if (order.size() == 1 && (int)((firstK * pool.size() + k) % A.nparts) != A.part) continue;
         used[di] = true; order.push_back(di);
         rec();
         order.pop_back(); used[di] = false;
       }
     };
-    if (pass == 0 && A.part != 0) {
-      // the empty map belongs to part 0
-      lo = std::max<size_t>(lo, 1);
-    }
     rec();
   }
   {
